@@ -45,7 +45,7 @@ impl Property for C02 {
         "C02"
     }
     fn rule(&self) -> &'static str {
-        "profile `protocol`: expansion-style programs rich in C and X rows, both driver types (write_input overridden / defaulted), >= 1 output-capable signal (one test in six: none at all - a pure stimulus whose rows report no outputs, where the mid-clock rows are known from their position in the expansion only), and a caller schedule (prefix length at which the iterator is dropped, 0-3 extra next() calls after None). Oracle: self-consistency between the recording driver's log and the items, measured as the log delta of every API call (constructor = one output-reading call with every input-capable signal at its default; Ok(row) = exactly one call, vector identical to row.inputs entry by entry, output-reading method iff row.outputs non-empty; None = zero calls, also afterwards; drop = zero calls; laziness: log length before the k-th next() = 1 + rows already returned), plus a closed formula for the number of mid-clock rows of loop-free programs. Non-trivial: trace has a mid-clock row or >= 3 rows, and the schedule has a post-None call or an early drop; distinct by source + signals + driver + schedule."
+        "profile `protocol`: expansion-style programs rich in C and X rows, both driver types (write_input overridden / defaulted), row values that in half of the cases need not fit the width of the signal they drive, >= 1 output-capable signal (one test in six: none at all - a pure stimulus whose rows report no outputs, where the mid-clock rows are known from their position in the expansion only), and a caller schedule (prefix length at which the iterator is dropped, 0-3 extra next() calls after None). Oracle: self-consistency between the recording driver's log and the items, measured as the log delta of every API call (constructor = one output-reading call with every input-capable signal at its default; Ok(row) = exactly one call, vector identical to row.inputs entry by entry, output-reading method iff row.outputs non-empty; None = zero calls, also afterwards; drop = zero calls; laziness: log length before the k-th next() = 1 + rows already returned), plus a closed formula for the number of mid-clock rows of loop-free programs. Non-trivial: trace has a mid-clock row or >= 3 rows, and the schedule has a post-None call or an early drop; distinct by source + signals + driver + schedule."
     }
     fn cases(&self, tier: Tier) -> u64 {
         match tier {
@@ -64,6 +64,11 @@ impl Property for C02 {
         // one test in six is a pure stimulus: input signals only, nothing to read back. Its
         // rows carry no output entries at all, and still every row that is not a mid-clock row
         // is sent with the output-reading call.
+        // in half of the cases row values are whatever the expressions give (they need not fit
+        // the signal they drive): the vector is passed on verbatim all the same
+        if dch.chance(1, 2) {
+            cfg.fit = Fit::Free;
+        }
         let pure_stimulus = dch.chance(1, 6);
         if pure_stimulus {
             cfg.n_out = (0, 0);
